@@ -1,6 +1,13 @@
 """C02 — decided on the serial dependency engine; see deps_check.py (shared body) and DESIGN §7."""
-import deps_check
+import random
+import deps_check, depsgen, c10
 from c_deps_common import *
 
 def run(ctx):
-    return deps_check.run_property(ctx, "C02", FEATURES["C02"], NCASES["C02"], WANT["C02"], known_matcher=KNOWN.get("C02"))
+    # the old dependency rows must stay in force while a rebuild is in flight (zap_deps1 .. zap_deps2): some histories
+    # contain builds killed part-way (C10's operation), after which the target must still be found dirty
+    rng = random.Random(ctx["seed"] * 47 + 2)
+    killed = [c10.with_crashes(rng, depsgen.gen_case(rng, features=FEATURES["C02"])) for _ in range(150 if ctx["tier"] == "thorough" else 15)]
+    cov = deps_check.run_property(ctx, "C02", FEATURES["C02"], NCASES["C02"], WANT["C02"] | {"C01"}, known_matcher=KNOWN.get("C02"), extra_cases=killed)
+    cov["histories_with_killed_builds"] = len(killed)
+    return cov
